@@ -452,8 +452,8 @@ def states(ctx, what):
     def sampled_part():
         yield dict(schema='full', mode='api', ops=[])
         yield dict(schema='full', mode='load', rows=[['A', [1, 'a', 0, True, 9]]])
-        n_api = 150 if quick else 1500
-        n_load = 60 if quick else 600
+        n_api = 100 if quick else 1500
+        n_load = 40 if quick else 600
         for k in range(n_api):
             yield M.random_history(rng, 'full', rng.choice((6, 12, 20, 30, 45, 60)))
             if k % 5 == 0:
@@ -479,34 +479,85 @@ def states(ctx, what):
                 yield st
 
 
+def _query_instances(q):
+    if 'start' in q:
+        st = q['start']
+        return [st[1]] if st[0] == 'inst' else (list(st[1]) if st[0] != 'none' else [])
+    if 'inst' in q:
+        return [] if q['inst'] is None else [q['inst']]
+    return []
+
+
+def _renumber_query(q, j):
+    f = lambda i: i - 1 if i > j else i
+    q = dict(q)
+    if 'start' in q:
+        st = list(q['start'])
+        if st[0] == 'inst':
+            st[1] = f(st[1])
+        elif st[0] != 'none':
+            st[1] = [f(i) for i in st[1]]
+        q['start'] = st
+    if q.get('inst') is not None and 'inst' in q:
+        q['inst'] = f(q['inst'])
+    return q
+
+
+def _drop_instance(state, q, j):
+    """The state without its j-th instance (and without the operations that mention it); None when the query needs it."""
+    if j in _query_instances(q):
+        return None
+    f = lambda i: i - 1 if i > j else i
+    if state['mode'] == 'load':
+        return dict(state, rows=state['rows'][:j] + state['rows'][j + 1:]), _renumber_query(q, j)
+    ops, n = [], -1
+    for op in state['ops']:
+        if op[0] == 'new':
+            n += 1
+            if n != j:
+                ops.append(op)
+        elif op[0] == 'delete':
+            if op[1] != j:
+                ops.append(['delete', f(op[1])])
+        else:
+            if j not in (op[2], op[3]):
+                ops.append([op[0], op[1], f(op[2]), f(op[3])] + list(op[4:]))
+    return dict(state, ops=ops), _renumber_query(q, j)
+
+
 def shrink(state, evaluator, q, clause):
-    """Shorter state on which the same query still fails the same clause (prefix of the history, then single
-    relate/unrelate/delete operations or rows dropped)."""
-    def fails(st):
+    """A smaller (state, query) pair that still fails the same clause: shortest failing prefix of the history, then
+    instances (with everything that mentions them) and single relate/unrelate/delete operations dropped greedily."""
+    def fails(st, qq):
         try:
             w, f = make_world(st)
             if w is None:
                 return False
-            return any(x['clause'] == clause for x in evaluator(w, q))
+            return any(x['clause'] == clause for x in evaluator(w, qq))
         except Exception:
             return False
+    best, bq = state, q
     if state['mode'] == 'api':
         ops = state['ops']
-        best = state
         for n in range(len(ops)):
             cand = dict(state, ops=ops[:n])
-            if fails(cand):
+            if fails(cand, q):
                 best = cand
                 break
+    count = len(best['rows']) if best['mode'] == 'load' else sum(1 for o in best['ops'] if o[0] == 'new')
+    for j in range(count - 1, -1, -1):
+        cand = _drop_instance(best, bq, j)
+        if cand is not None and fails(*cand):
+            best, bq = cand
+    if best['mode'] == 'api':
         i = len(best['ops']) - 1
         while i >= 0:
             if best['ops'][i][0] != 'new':
                 cand = dict(best, ops=best['ops'][:i] + best['ops'][i + 1:])
-                if fails(cand):
+                if fails(cand, bq):
                     best = cand
             i -= 1
-        return best
-    return state
+    return best, bq
 
 
 def _run(ctx, what, evaluator, queries_of):
@@ -533,13 +584,13 @@ def _run(ctx, what, evaluator, queries_of):
         for q in queries_of(w, rng):
             ctx.case(key=None, nontrivial=nlive >= 2)
             for f in evaluator(w, q):
-                st = state
-                if ctx._per_clause.get(f['clause'], 0) < ctx.MAX_PER_CLAUSE:
-                    st = shrink(state, evaluator, q, f['clause'])
+                st, sq = state, q
+                if getattr(ctx, '_per_clause', {}).get(f['clause'], 0) < getattr(ctx, 'MAX_PER_CLAUSE', 3):
+                    st, sq = shrink(state, evaluator, q, f['clause'])
                     if st is not state:
                         w2, _ = make_world(st)
-                        f = ([g for g in evaluator(w2, q) if g['clause'] == f['clause']] or [f])[0]
-                ctx.check(False, clause=f['clause'], input=dict(state=st, query=q), observed=f['observed'], required=f['required'])
+                        f = ([g for g in evaluator(w2, sq) if g['clause'] == f['clause']] or [f])[0]
+                ctx.check(False, clause=f['clause'], input=dict(state=st, query=sq), observed=f['observed'], required=f['required'])
     if ctx.shard == 0:
         ctx.note('all states of the list were evaluated (%d in shard 0)' % done)
     ctx.exhausted = False   # the random part of the state list is a sample
@@ -548,7 +599,7 @@ def _run(ctx, what, evaluator, queries_of):
 _STATES_BOUND = ('states: every valid API history (new/relate in both call forms/unrelate/delete) of depth <= 4 (quick) / <= 5 (thorough) over the '
                  'mini schema (A, B, 1:M), plus random histories of 6..60 operations over the full schema (1:M, 1:1, reflexive 1:1 and 1:M with '
                  'phrases, association class, reflexive through an association class, supertype with two subtypes; <= 4 instances per class) '
-                 'and populations loaded from SQL text with repeated identifiers and dangling references (150+60 quick / 1500+600 thorough)')
+                 'and populations loaded from SQL text with repeated identifiers and dangling references (100+40 quick / 1500+600 thorough)')
 
 
 @item('select', stands_in_for=['xtuml.meta.apply_query_operators', 'xtuml.meta.WhereEqual.__call__', 'xtuml.meta.OrderBy.__call__',
@@ -556,12 +607,12 @@ _STATES_BOUND = ('states: every valid API history (new/relate in both call forms
                                'xtuml.meta.MetaModel.select_one'],
       bound=_STATES_BOUND + '; queries: per state and class an alphabet of about 12 operators (where_eq on 1-2 attributes including referential '
             'ones, dict filter, callables, order_by / reverse_order_by on 1-2 attributes with ties), every sequence of <= 2 operators for every '
-            'class and of <= 3 operators for two classes per state, through select_many, select_one and select_any; non-trivial = state with >= 2 live instances',
-      shards=8, weight=2)
+            'class and of <= 3 operators for two classes (mini schema: one class) per state, through select_many, select_one and select_any; non-trivial = state with >= 2 live instances',
+      shards=6, weight=2)
 def select(ctx):
     def queries(w, rng):
         names = [c['name'] for c in w.ref.schema['classes']]
-        full = rng.sample(names, min(2, len(names)))
+        full = rng.sample(names, 1 if len(names) <= 2 else 2)
         return select_queries(w, rng, full)
     _run(ctx, 'select', eval_select, queries)
 
@@ -569,12 +620,12 @@ def select(ctx):
 @item('navigate', stands_in_for=['xtuml.meta.MetaClass.navigate', 'xtuml.meta.MetaClass._find_assoc_links', 'xtuml.meta.NavChain', 'xtuml.meta.NavOneChain',
                                  'xtuml.meta.navigate_one', 'xtuml.meta.navigate_any', 'xtuml.meta.navigate_many', 'xtuml.meta.navigate_subtype'],
       bound=_STATES_BOUND + '; navigations: every chain of 1-2 steps the schema offers (direct links and shortcuts through association classes) and '
-            '12+12 (quick) / 40+40 (thorough) sampled chains of 3 and 4 steps per class and state, from None, every instance, the selected query set, '
+            '12+12 (quick) / 30+30 (thorough) sampled chains of 3 and 4 steps per class and state, from None, every instance, the selected query set, '
             'a query set in reverse order, lists (also with a repeated element, also empty), a tuple, a generator and an iterator, with navigate_many/any/one, '
             '.nav() and [..] syntax, number and "R<n>" form; final call without and with 1-2 filters/orderings; navigate_subtype from every supertype instance and None',
-      shards=8, weight=2)
+      shards=10, weight=3)
 def navigate(ctx):
-    n = 12 if ctx.quick else 40
+    n = 12 if ctx.quick else 30
 
     def queries(w, rng):
         for q in nav_queries(w, rng, n, n):
